@@ -594,13 +594,119 @@ def manipulation(rng):
     return out
 
 
+# ------------------------------------------------------------------------- dask arrays as ARGUMENTS
+
+INT_DTYPES = ("i8", "i4", "i2", "i1", "u8", "u4", "u2", "u1")
+
+
+def dask_arguments(rng, full=True):
+    """operations taking OTHER dask arrays as arguments (integer indexers with negative entries in every integer
+    dtype, boolean masks, bins, choices, conditions): every argument collection is a source of the case, so it is a root
+    of both graphs, fingerprinted around every task that depends on it and re-computed afterwards.  The same indexer
+    object is applied to arrays of DIFFERENT lengths in one graph (a kernel that normalises it in place for one length
+    corrupts the other).  ENUMERATED in every sweep: indexer dtype x {getitem, take, setitem}, indexer chunk class."""
+    out = []
+    fam = "dask-arguments"
+    ipats = ("ragged", "ones", "one", "regular", "first1", "last1")
+
+    def xsrc(shape, dt=None, **kw):
+        return mk_src(rng, shape, rand_chunks(rng, shape, ("one", "ragged", "regular", "first1", "ones")), dt or rng.choice(("f8", "i8", "f4")), **kw)
+
+    def isrc(n, dt, k=None, pat=None, perm=False):
+        """integer indexer into an axis of length n: entries over the whole legal range [-n, n) (unsigned: [0, n))"""
+        k = k or rng.randint(2, 7)
+        ch = [chunk_pattern(rng, k, pat or rng.choice(ipats))]
+        if perm:
+            return mk_src(rng, [k], ch, dt, perm=n)
+        return mk_src(rng, [k], ch, dt, range=[0 if dt[0] == "u" else -n, n])
+
+    def base(nd=None):
+        shape = rshape(rng, nd or rng.choice((1, 2, 2, 3)), lo=3, hi=7)
+        axis = rng.randrange(len(shape))
+        return shape, axis
+
+    def other_len(shape, axis):
+        s2 = list(shape)
+        s2[axis] = shape[axis] + rng.randint(1, 5)
+        return s2
+
+    # 1. x[idx], y[idx] (y longer along the axis), every integer dtype; the plain from_array indexer (whose blocks are
+    # views of the user's array) at least half of the time
+    for j, dt in enumerate(INT_DTYPES + ("i8",)):
+        shape, axis = base()
+        kw = {"axis": axis, "again": rng.random() < 0.3}
+        if len(shape) > 1 and rng.random() < 0.3:
+            kw["rest"] = [None if i == axis else (["s", 0, rng.randint(1, n), None] if rng.random() < 0.6 else ["i", rng.randrange(-n, n)]) for i, n in enumerate(shape)]
+        srcs = [xsrc(shape), xsrc(other_len(shape, axis)), isrc(shape[axis], dt, pat=ipats[j % len(ipats)])]
+        out.append(mk(rng, "arg.getitem", kw, srcs, pre="none" if j % 2 == 0 else None, family=fam, both=dt == "i8"))
+    # 2. take
+    for dt in ("i8", rng.choice(INT_DTYPES[1:])):
+        shape, axis = base()
+        srcs = [xsrc(shape), xsrc(other_len(shape, axis)), isrc(shape[axis], dt)]
+        out.append(mk(rng, "arg.take", {"axis": axis}, srcs, pre=rng.choice(("none", None)), family=fam))
+    # 3. boolean masks: 1-D along an axis, full-shape
+    for dt in ("b1", "b1"):
+        shape, axis = base()
+        m = mk_src(rng, [shape[axis]], [chunk_pattern(rng, shape[axis], rng.choice(ipats))], "b1")
+        out.append(mk(rng, "arg.getitem", {"axis": axis}, [xsrc(shape), m], family=fam))
+    shape, axis = base()
+    ch = rand_chunks(rng, shape)
+    out.append(mk(rng, "arg.getitem_mask_nd", {}, [mk_src(rng, shape, ch, "f8"), mk_src(rng, shape, ch if rng.random() < 0.6 else rand_chunks(rng, shape), "b1")], family=fam))
+    # 4. setitem with dask keys
+    for dt, value in (("i8", 3), ("i8", "nparr"), (rng.choice(INT_DTYPES[1:]), rng.choice((3, "nparr"))), ("b1", -2), ("b1nd", -2)):
+        shape, axis = base(rng.choice((1, 2, 2)))
+        if dt == "b1nd":
+            ch = rand_chunks(rng, shape)
+            out.append(mk(rng, "arg.setitem", {"axis": 0, "full": True, "value": value}, [mk_src(rng, shape, ch, "f8"), mk_src(rng, shape, ch, "b1")], family=fam))
+            continue
+        key = mk_src(rng, [shape[axis]], [chunk_pattern(rng, shape[axis], rng.choice(ipats))], "b1") if dt == "b1" else \
+            isrc(shape[axis], dt, k=rng.randint(1, shape[axis]), perm=True, pat="one" if value == "nparr" else None)  # an array value needs a one-chunk key
+        out.append(mk(rng, "arg.setitem", {"axis": axis, "value": value}, [xsrc(shape, rng.choice(("f8", "i8"))), key], pre="none" if rng.random() < 0.5 else None, family=fam))
+    # 5. masks / conditions / choices / bins as collections
+    shape, axis = base(2)
+    out.append(mk(rng, "arg.compress", {"axis": axis}, [xsrc(shape), mk_src(rng, [shape[axis]], [chunk_pattern(rng, shape[axis], rng.choice(ipats))], "b1")], family=fam))
+    ch = rand_chunks(rng, shape)
+    same = lambda dt, **kw: mk_src(rng, shape, ch if rng.random() < 0.6 else rand_chunks(rng, shape), dt, **kw)
+    out.append(mk(rng, "arg.extract", {}, [same("f8"), same("b1")], family=fam))
+    out.append(mk(rng, "arg.choose", {}, [same("f8"), same("f8"), same(rng.choice(("i8", "i4", "u1")), range=[0, 2])], family=fam))
+    out.append(mk(rng, "arg.select", {"default": -1}, [same("f8"), same("f8"), same("b1"), same("b1")], family=fam))
+    out.append(mk(rng, "arg.where", {}, [same("f8"), same("i8"), same("b1")], family=fam))
+    out.append(mk(rng, "arg.piecewise", {}, [same("f8"), same("b1"), same("b1")], family=fam))
+    nb = rng.randint(2, 6)
+    bins = lambda: mk_src(rng, [nb], [chunk_pattern(rng, nb, rng.choice(("one", "ragged", "ones")))], "f8", sorted=True)
+    out.append(mk(rng, "arg.digitize", {"right": rng.random() < 0.5}, [same("f8"), bins()], family=fam))
+    out.append(mk(rng, "arg.searchsorted", {"side": rng.choice(("left", "right"))}, [same("f8"), bins()], family=fam))
+    w = rng.random() < 0.5
+    out.append(mk(rng, "arg.histogram", {"weights": w, "density": rng.choice((None, True))}, [same("f8"), bins()] + ([mk_src(rng, shape, ch, "f8", pos=True)] if w else []), family=fam))
+    n = rng.randint(3, 10)
+    c = [chunk_pattern(rng, n, rng.choice(ipats))]
+    out.append(mk(rng, "arg.bincount", {"weights": True, "minlength": rng.choice((0, 9))}, [mk_src(rng, [n], c, rng.choice(("i8", "i4", "u2")), ties=True), mk_src(rng, [n], c, "f8")], family=fam))
+    out.append(mk(rng, "arg.isin", {"invert": rng.random() < 0.5}, [same("i8", ties=True), mk_src(rng, [nb], [chunk_pattern(rng, nb, "ragged")], "i8", ties=True)], family=fam))
+    dims = [rng.randint(2, 5), rng.randint(2, 5)]
+    k = rng.randint(2, 6)
+    out.append(mk(rng, "arg.unravel_index", {"dims": dims}, [mk_src(rng, [k], [chunk_pattern(rng, k, "ragged")], rng.choice(("i8", "i4")), range=[0, dims[0] * dims[1]])], family=fam))
+    out.append(mk(rng, "arg.ravel_multi_index", {"dims": [9, 9]}, [mk_src(rng, [2, k], [[2], chunk_pattern(rng, k, "ragged")], "i8", range=[0, 9])], family=fam))
+    # 6. NumPy arrays as keys (negative entries, every integer dtype): the user's key arrays are watched
+    for how in ("getitem", "take", "vindex", "setitem"):
+        shape, axis = base(2)
+        dt = rng.choice(INT_DTYPES[:4]) if how != "getitem" else "i8"
+        k = rng.randint(1, 5)
+        kw = {"how": how, "axis": axis, "kdtype": dt, "key": [rng.randrange(-shape[axis], shape[axis]) for _ in range(k)]}
+        if how == "vindex":
+            kw["key"] = [rng.randrange(-shape[0], shape[0]) for _ in range(k)]
+            kw["key2"] = [rng.randrange(-shape[1], shape[1]) for _ in range(k)]
+        out.append(mk(rng, "arg.numpy_key", kw, [xsrc(shape, "i8")], family=fam))
+    return out
+
+
 FAMILIES = (order_statistics, moving_windows, reductions, cumulative, elementwise, setitem_store, contractions, search_like, manipulation)
 
 
 def gen_cases(rng):
-    """one stratified sweep (a few hundred cases): the two families whose kernels take NumPy-level overwrite options /
-    special-case tiny blocks first, the others in a drawn order (a time budget may cut the tail of a sweep)"""
-    out = []
+    """one stratified sweep (a few hundred cases): the dask-argument family and the two families whose kernels take
+    NumPy-level overwrite options / special-case tiny blocks first, the others in a drawn order (a time budget may cut
+    the tail of a sweep)"""
+    out = dask_arguments(rng)
     rest = list(FAMILIES[2:])
     rng.shuffle(rest)
     for f in list(FAMILIES[:2]) + rest:
